@@ -112,6 +112,21 @@ def check_hourly_index(zone, start, end, usage):
         bad.append("not chronological")
     if not np.isfinite(p["predicted"].astype(float)).all():
         bad.append(f"{int((~np.isfinite(p['predicted'].astype(float))).sum())} non-finite predictions")
+    # every supplied timestamp has its row (the frame may add rows to complete the first / last local day, never lose one)
+    from bounded.hourly_common import hourly_frame
+    supplied = hourly_frame(zone).loc[start:end].index
+    lost = supplied.difference(p.index)
+    if len(lost):
+        bad.append(f"{len(lost)} supplied timestamps have no row in the prediction, e.g. {lost[0]}")
+    # no timestamp is shifted: the value predicted for a timestamp does not depend on where the reporting span begins or ends
+    wide = reporting(zone, str((pd.Timestamp(start) - pd.Timedelta(days=3)).date()), str((pd.Timestamp(end) + pd.Timedelta(days=3)).date()), tr)
+    pw = m.predict(wide, ignore_disqualification=True)
+    common = p.index.intersection(pw.index)
+    a, b = p.loc[common, "predicted"].astype(float), pw.loc[common, "predicted"].astype(float)
+    if len(common) and not np.allclose(a.values, b.values, rtol=1e-9, atol=1e-9, equal_nan=True):
+        k = int(np.nanargmax(np.abs(a.values - b.values)))
+        bad.append(f"{int((~np.isclose(a.values, b.values, rtol=1e-9, atol=1e-9, equal_nan=True)).sum())} timestamps are predicted differently when the span is extended by 3 days "
+                   f"on either side, e.g. {common[k]}: {a.values[k]!r} vs {b.values[k]!r}")
     return {"ok": not bad, "problems": bad}
 
 
@@ -162,7 +177,10 @@ def run(tier="quick", seed=0):
     b.exhaustive = tier == "thorough"
     # (b) real predictions
     spans = [("America/Chicago", "2017-03-05", "2017-03-19"), ("America/Chicago", "2017-10-29", "2017-11-11"),
-             ("America/Chicago", "2017-06-03", "2017-06-04")]
+             ("America/Chicago", "2017-06-03", "2017-06-04"),
+             # spans that END / BEGIN on the day of the change itself
+             ("America/Chicago", "2017-03-05", "2017-03-12"), ("America/Chicago", "2017-10-29", "2017-11-05"),
+             ("America/Chicago", "2017-03-12", "2017-03-16"), ("America/Chicago", "2017-11-05", "2017-11-09")]
     if tier == "thorough":
         spans += [("Europe/London", "2017-03-20", "2017-04-02"), ("Australia/Sydney", "2017-03-27", "2017-04-09"),
                   ("Asia/Tokyo", "2017-03-05", "2017-03-12")]
